@@ -38,6 +38,20 @@ package ngapTestpacket
 //@ ensures nas: vcSame(pdu.InitiatingMessage.Value.InitialUEMessage.ProtocolIEs.List[1].Value.NASPDU.Value, nasPdu)
 //@ ensures plmn: vcSame(pdu.InitiatingMessage.Value.InitialUEMessage.ProtocolIEs.List[2].Value.UserLocationInformation.UserLocationInformationNR.NRCGI.PLMNIdentity.Value, TestPlmn.Value) && vcSame(pdu.InitiatingMessage.Value.InitialUEMessage.ProtocolIEs.List[2].Value.UserLocationInformation.UserLocationInformationNR.TAI.PLMNIdentity.Value, TestPlmn.Value)
 
+// With a 5G-S-TMSI (12 hex digits: AMF set id and pointer, 5G-TMSI) the message has six IEs in the order
+// of TS 38.413 9.2.5.1: RAN-UE-NGAP-ID, NAS-PDU, User Location Information, RRC Establishment Cause,
+// 5G-S-TMSI (id 26, reject), UE Context Request.
+//@ func BuildInitialUEMessage
+//@ prop C13
+//@ behavior tmsi
+//@ proofonly
+//@ shape fiveGSTmsi 12
+//@ requires hex: vc.Forall(0, 12, func(i int) bool { return ('0' <= fiveGSTmsi[i] && fiveGSTmsi[i] <= '9') || ('a' <= fiveGSTmsi[i] && fiveGSTmsi[i] <= 'f') })
+//@ ensures class: pdu.Present == 1 && pdu.InitiatingMessage != nil
+//@ ensures head: pdu.InitiatingMessage.ProcedureCode.Value == ngap38413.ProcInitialUEMessage && pdu.InitiatingMessage.Criticality.Value == ngap38413.Ignore && pdu.InitiatingMessage.Value.InitialUEMessage != nil
+//@ ensures ies: vcIEs(vcInitialUEIDs(pdu), []int64{ngap38413.IERANUENGAPID, ngap38413.Reject, ngap38413.IENASPDU, ngap38413.Reject, ngap38413.IEUserLocationInformation, ngap38413.Reject, ngap38413.IERRCEstablishmentCause, ngap38413.Ignore, ngap38413.IEFiveGSTMSI, ngap38413.Reject, ngap38413.IEUEContextRequest, ngap38413.Ignore})
+//@ ensures ids: pdu.InitiatingMessage.Value.InitialUEMessage.ProtocolIEs.List[0].Value.RANUENGAPID.Value == ranUeNgapID
+
 //@ func BuildInitialContextSetupResponseForRegistraionTest
 //@ prop C13
 //@ ensures class: pdu.Present == 2 && pdu.SuccessfulOutcome != nil && pdu.InitiatingMessage == nil && pdu.UnsuccessfulOutcome == nil
